@@ -1,11 +1,12 @@
 package s0359
 
 type G1 struct {
-	F1x0 *int64
+	F0x0 []int32
+	F0x1 int64
+	F0x2 []uint32
+	F0x3 uint64
 }
 
 type T struct {
-	F0 *int32
-	F1 *G1
-	F2 []uint32
+	F0 G1
 }
